@@ -1,69 +1,78 @@
 ---------------------------- MODULE MC_EngineCore ----------------------------
 (* Bounded instance of EngineCore for exhaustive model checking: a finite     *)
-(* alphabet of events and environments over the harness world.               *)
+(* alphabet of events and environments over the harness world (three         *)
+(* exchanges, six instruments).                                              *)
 EXTENDS EngineCore
 
 CONSTANT MaxSeq
 
 E0(a, ex, inst) == Ev(a, ex, inst, "", "", "-", 0, FALSE, "-", <<>>, NoFilter)
 F(k, set) == [k |-> k, set |-> set]
-Filters == {NoFilter, F("Exchanges", <<0>>), F("Exchanges", <<1>>), F("Instruments", <<1>>), F("Instruments", <<0, 4, 0>>),
+\* by-exchange filters over THREE exchanges: a single one (first / middle / last), the non-adjacent pair in both
+\* orders (the instruments it selects - 0..3 and 5 - are not one contiguous block of instrument states)
+Filters == {NoFilter, F("Exchanges", <<0>>), F("Exchanges", <<1>>), F("Exchanges", <<2>>), F("Exchanges", <<0, 2>>),
+            F("Exchanges", <<2, 0>>), F("Instruments", <<1>>), F("Instruments", <<0, 5, 0>>),
             F("Instruments", <<0, 4>>), F("Underlyings", <<0>>), F("Underlyings", <<2>>), F("Underlyings", <<3, 4>>),
+            F("Underlyings", <<5>>),
             \* a filter built from an EMPTY collection denotes the empty scope (not "no filter")
             F("Exchanges", <<>>), F("Instruments", <<>>), F("Underlyings", <<>>)}
 
 MCEvents ==
-       {E0("Market", ExOf(i), i) : i \in {0, 2, 4}}
-  \cup {E0("MarketNoPrice", ExOf(i), i) : i \in {0, 4}}
-  \cup {E0(a, e, 0) : a \in {"MarketReconnecting", "AccountReconnecting"}, e \in {0, 1}}
-  \cup {Ev("OrderSnap", ExOf(i), i, "c1", k, "-", 0, FALSE, "-", <<>>, NoFilter) : i \in {0, 4}, k \in {"Open", "Inactive"}}
+       {E0("Market", ExOf(i), i) : i \in {0, 2, 4, 5}}
+  \cup {E0("MarketNoPrice", ExOf(i), i) : i \in {0, 5}}
+  \cup {E0(a, e, 0) : a \in {"MarketReconnecting", "AccountReconnecting"}, e \in {0, 1, 2}}
+  \cup {Ev("OrderSnap", ExOf(i), i, "c1", k, "-", 0, FALSE, "-", <<>>, NoFilter) : i \in {0, 4, 5}, k \in {"Open", "Inactive"}}
   \cup {Ev("CancelResp", 0, 0, "c1", "", "-", 0, ok, "-", <<>>, NoFilter) : ok \in BOOLEAN}
-  \cup {Ev("Trade", ExOf(i), i, "", "", sd, 1, FALSE, "-", <<>>, NoFilter) : i \in {2, 4}, sd \in {"buy", "sell"}}
-  \cup {Ev("Balance", 0, 0, "", "", "-", 3, FALSE, "-", <<>>, NoFilter)}
+  \cup {Ev("Trade", ExOf(i), i, "", "", sd, 1, FALSE, "-", <<>>, NoFilter) : i \in {2, 4, 5}, sd \in {"buy", "sell"}}
+  \* (an odd quantity: the balance inside a full account snapshot of the exchange; even: a balance snapshot)
+  \cup {Ev("Balance", 0, 0, "", "", "-", 3, FALSE, "-", <<>>, NoFilter), Ev("Balance", 2, 0, "", "", "-", 4, FALSE, "-", <<>>, NoFilter)}
   \cup {Ev("TradingState", 0, 0, "", "", "-", 0, FALSE, to, <<>>, NoFilter) : to \in {"Enabled", "Disabled"}}
   \cup {Ev("SendOpens", 0, 0, "", "", "-", 0, FALSE, "-", rs, NoFilter) :
            rs \in {<<OpenReq(0, "c1", "buy", 1)>>,
-                   <<OpenReq(0, "c1", "buy", 1), OpenReq(4, "c2", "sell", 2)>>,
-                   <<Req("open", 2, 0, "c2", "buy", 1, FALSE)>>}}          \* unknown exchange index
+                   <<OpenReq(0, "c1", "buy", 1), OpenReq(4, "c2", "sell", 2), OpenReq(5, "c1", "buy", 2)>>,   \* one per exchange
+                   <<Req("open", NEX, 0, "c2", "buy", 1, FALSE)>>}}        \* unknown exchange index
   \cup {Ev("SendCancels", 0, 0, "", "", "-", 0, FALSE, "-", rs, NoFilter) :
-           rs \in {<<CancelReq(0, "c1", FALSE)>>, <<CancelReq(0, "c1", TRUE), CancelReq(4, "c2", FALSE)>>}}
+           rs \in {<<CancelReq(0, "c1", FALSE)>>, <<CancelReq(0, "c1", TRUE), CancelReq(4, "c2", FALSE), CancelReq(5, "c1", TRUE)>>}}
   \cup {Ev(a, 0, 0, "", "", "-", 0, FALSE, "-", <<>>, f) : a \in {"CancelOrders", "ClosePositions"}, f \in Filters}
-  \cup {Ev("ClosePositionsCF", 0, 0, "", "", "-", 0, FALSE, "-", <<>>, f) : f \in {NoFilter, F("Exchanges", <<0>>), F("Instruments", <<0, 4>>)}}
+  \cup {Ev("ClosePositionsCF", 0, 0, "", "", "-", 0, FALSE, "-", <<>>, f) : f \in {NoFilter, F("Exchanges", <<0, 2>>), F("Instruments", <<0, 4>>)}}
   \cup {E0("Shutdown", 0, 0)}
 
-Links == {<<"healthy", "healthy">>, <<"healthy", "closed">>, <<"unhealthy", "healthy">>,
-          <<"missing", "healthy">>, <<"closed", "unhealthy">>}
+\* link states of the three exchanges: all healthy; the MIDDLE exchange closed / without a link; the two OUTER ones
+\* unhealthy; first missing + last closed; nothing healthy on the first two + last missing.  Every fault occurs at every position.
+Links == {<<"healthy", "healthy", "healthy">>, <<"healthy", "closed", "healthy">>, <<"unhealthy", "healthy", "unhealthy">>,
+          <<"healthy", "missing", "healthy">>, <<"missing", "healthy", "closed">>, <<"closed", "unhealthy", "missing">>}
 Scripts == {<< <<>>, <<>> >>,
             << <<>>, <<OpenReq(0, "c2", "buy", 1)>> >>,
-            << <<CancelReq(0, "c1", TRUE)>>, <<OpenReq(4, "c2", "sell", 1)>> >>}
-MCEnvs == {Env(l, s[1], s[2], r) : l \in Links, s \in Scripts, r \in {<<>>, <<"c2">>}}
+            << <<CancelReq(0, "c1", TRUE)>>, <<OpenReq(4, "c2", "sell", 1), OpenReq(5, "c2", "sell", 1)>> >>}
+\* (refusing "c2" while the strategy asks for nothing is the same environment as refusing nothing)
+MCEnvs == {Env(l, s[1], s[2], r) : l \in Links, s \in Scripts, r \in {<<>>, <<"c2">>}} \ {Env(l, <<>>, <<>>, <<"c2">>) : l \in Links}
 
-LinksQ == {<<"healthy", "healthy">>, <<"healthy", "closed">>, <<"unhealthy", "healthy">>, <<"missing", "healthy">>}
-ScriptsQ == {<< <<>>, <<>> >>, << <<CancelReq(0, "c1", TRUE)>>, <<OpenReq(4, "c2", "sell", 1)>> >>}
-MCEnvsQ == {Env(l, s[1], s[2], r) : l \in LinksQ, s \in ScriptsQ, r \in {<<>>, <<"c2">>}}
-
-MCEnvs1 == {Env(<<"healthy", "healthy">>, <<>>, <<OpenReq(0, "c2", "buy", 1)>>, <<>>)}
+MCEnvs1 == {Env(<<"healthy", "healthy", "healthy">>, <<>>, <<OpenReq(0, "c2", "buy", 1)>>, <<>>)}
 
 (***************************************************************************)
 (* C19 scope, exhaustively: every filter x both commands from a rich set of *)
 (* engine states (any mix of untracked / in-flight / open / cancel-in-flight*)
 (* orders, long / short / no position, price known / unknown), one step.    *)
+(* Every subset of the three exchanges (incl. the non-adjacent {0, 2}), of   *)
+(* the six instruments and of the five distinct underlyings.                *)
 (***************************************************************************)
 InstOf(c, k, n, p) == [orders |-> [x \in CIDS |-> IF x = c THEN k ELSE "U"], net |-> n, priced |-> p]
 InstA == {InstOf("c1", k, n, p) : k \in Kinds, n \in {0, 2}, p \in BOOLEAN}
 InstB == {InstOf("c2", k, 0, TRUE) : k \in {"U", "Open", "CIFo"}}
 InstC == {InstOf("c2", "U", n, TRUE) : n \in {0, -1}}
-InstD == {InstOf("c1", k, n, TRUE) : k \in {"OIF", "Open"}, n \in {0, 2}}
-ScopeInit == /\ st \in {[trading |-> "Disabled", conn |-> StInit("Disabled").conn, inst |-> <<a, b, c, d, e>>] :
-                          a \in InstA, b \in InstB, c \in InstC, d \in InstB, e \in InstD}
+InstD == {InstOf("c1", "OIF", 0, TRUE), InstOf("c1", "Open", 2, TRUE)}
+\* the instrument of the LAST exchange: something to cancel and to close / only an order in flight / nothing at all
+InstF == {InstOf("c2", "Open", -1, TRUE), InstOf("c2", "OIF", 0, TRUE), InstInit}
+ScopeInit == /\ st \in {[trading |-> "Disabled", conn |-> StInit("Disabled").conn, inst |-> <<a, b, c, d, e, f>>] :
+                          a \in InstA, b \in InstB, c \in InstC, d \in InstB, e \in InstD, f \in InstF}
              /\ seq = 0 /\ tick = NoTick /\ dl = [e \in 1..NEX |-> {}]
              /\ last = [ev |-> NoEvent, env |-> NoEnv]
 NonEmptySeqs(S) == {SetToSeq(T) : T \in SUBSET S}        \* (the empty collection included: the empty scope)
-AllFilters == {NoFilter} \cup {F("Exchanges", q) : q \in NonEmptySeqs({0, 1})}
-                         \cup {F("Instruments", q) : q \in NonEmptySeqs({0, 1, 2, 3, 4})}
-                         \cup {F("Underlyings", q) : q \in NonEmptySeqs({0, 2, 3, 4})}
+AllFilters == {NoFilter} \cup {F("Exchanges", q) : q \in NonEmptySeqs({0, 1, 2})} \cup {F("Exchanges", <<2, 0>>)}
+                         \cup {F("Instruments", q) : q \in NonEmptySeqs({0, 1, 2, 3, 4, 5})}
+                         \cup {F("Underlyings", q) : q \in NonEmptySeqs({0, 2, 3, 4, 5})}
 ScopeEvents == {Ev(a, 0, 0, "", "", "-", 0, FALSE, "-", <<>>, f) : a \in {"CancelOrders", "ClosePositions"}, f \in AllFilters}
-ScopeEnvs == {Env(l, <<>>, <<>>, <<>>) : l \in {<<"healthy", "healthy">>, <<"unhealthy", "healthy">>}}
+ScopeEnvs == {Env(l, <<>>, <<>>, <<>>) : l \in {<<"healthy", "healthy", "healthy">>, <<"unhealthy", "healthy", "healthy">>}}
 ScopeStep == seq = 0 /\ \E ev \in ScopeEvents, env \in ScopeEnvs : Process(ev, env)
 ScopeSpec == ScopeInit /\ [][ScopeStep]_vars
 
@@ -73,12 +82,14 @@ ScopeSpec == ScopeInit /\ [][ScopeStep]_vars
 (* the alphabet, one step, trading enabled and disabled, mixed link health. *)
 (***************************************************************************)
 RInstA == {InstOf("c1", k, n, TRUE) : k \in Kinds, n \in {0, 2}}
-RInstE == {InstOf("c2", k, n, p) : k \in {"U", "Open"}, n \in {0, -1}, p \in BOOLEAN}
+RInstE == {InstOf("c2", k, n, TRUE) : k \in {"U", "Open"}, n \in {0, -1}}
+RInstF == {InstOf("c1", "Open", 2, TRUE), InstOf("c2", "U", 0, FALSE)}
+\* connectivity: the first exchange in every combination, the middle one healthy, the last one the mirror image of the first
 ConnSet == {[global |-> IF m = "Healthy" /\ a = "Healthy" THEN "Healthy" ELSE "Reconnecting",
-             ex |-> << [market |-> m, account |-> a], [market |-> "Healthy", account |-> "Healthy"] >>] :
+             ex |-> << [market |-> m, account |-> a], [market |-> "Healthy", account |-> "Healthy"], [market |-> a, account |-> m] >>] :
                m \in {"Healthy", "Reconnecting"}, a \in {"Healthy", "Reconnecting"}}
-RichInit == /\ st \in {[trading |-> tr, conn |-> cn, inst |-> <<a, InstInit, InstInit, InstInit, e>>] :
-                         tr \in {"Enabled", "Disabled"}, cn \in ConnSet, a \in RInstA, e \in RInstE}
+RichInit == /\ st \in {[trading |-> tr, conn |-> cn, inst |-> <<a, InstInit, InstInit, InstInit, e, f>>] :
+                         tr \in {"Enabled", "Disabled"}, cn \in ConnSet, a \in RInstA, e \in RInstE, f \in RInstF}
             /\ seq = 0 /\ tick = NoTick /\ dl = [x \in 1..NEX |-> {}]
             /\ last = [ev |-> NoEvent, env |-> NoEnv]
 RichStep == seq = 0 /\ \E ev \in MCEvents, env \in MCEnvs : Process(ev, env)
